@@ -23,7 +23,8 @@ static Plan gen_c14(uint64_t seed, int64_t index, bool thorough)
 {
     Rng rng(hash_seed(seed, "C14", index));
     // xnode (throwing move) only takes part with small inputs: std::vector itself copies such elements when it grows
-    std::vector<std::string> pk = keys_for({ "G1", "G2", "G3", "G4", "G6", "G7", "G10", "G11", "G13", "G14", "G14", "T1" }, false, true);
+    // (pnode: trivially destructible, so only its COPIES are visible to the ledger -- the fixed-capacity value stack)
+    std::vector<std::string> pk = keys_for({ "G1", "G2", "G3", "G4", "G6", "G7", "G10", "G11", "G13", "G14", "G14", "G16", "T1" }, true, true);
     std::string key = rng.pick(pk);
     const ref::Model* m = model_for(grammar_of(key));
     OpShape sh;
